@@ -412,6 +412,8 @@ def run_shard(ctx):
     for k, v in stats.items():
         res.count(k, v)
     res.count('icontract_invariant_evaluations', _inv_evals[0])
+    if ctx.shard == 0:
+        common.repo_tests_with_contracts(res, 'C10', ['tests/test_frame.py'])
     if res.samples == []:
         res.sample({'start': start_key(STARTS[3]), 'sequence': ['ro_rgb@root', 'write@root', 'ro_rgb@root'],
                     'meaning': 'each letter is applied to the real Frame and to the model, then every live frame is compared'})
@@ -451,6 +453,11 @@ def conclusive(agg, tier):
 
 def replay(spec):
     common.quiet_logging()
+    if 'repo_test' in spec:
+        r = common.Result()
+        common.repo_tests_with_contracts(r, 'C10', [spec['repo_test']])
+        print(r.violations[:1] or 'no contract fired in that test on this tree')
+        return 1 if r.violations else 0
     install_contracts()
     start = (spec['start'][0], spec['start'][1], tuple(spec['start'][2]))
     seq = [tuple(x) for x in spec['seq']]
